@@ -1057,7 +1057,7 @@ class Interp:
             if pl.proj and pl.proj[-1][0] == "subslice":
                 return self.read_place(pl, fr, st)          # &x[a..b]: the fat pointer is the window itself
             pt = self.place_type(pl, fr) or ""
-            if "Cell<" in pt:
+            if fr.fn.kind == "fn" and any(t in pt for t in ("Cell<", "Mutex<", "RwLock<", "OnceLock<", "LazyLock<", "Atomic")):
                 # a shared borrow of something with interior mutability must stay a real pointer: writes through it are visible
                 try:
                     key, path = self.resolve(pl, fr, st)
